@@ -309,6 +309,10 @@ type RT struct {
 	Name string
 	Type reflect.Type
 	Rows []any // row alphabet (values of the Go type, boxed)
+	// ExplicitSchema: the type has interface-typed fields and is used with a
+	// schema given to every entry point (C03 only: what such a field reads back
+	// as is not part of the documented mapping)
+	ExplicitSchema bool
 
 	SchemaOf     func() *parquet.Schema
 	WriteGeneric func(out io.Writer, opts []parquet.WriterOption, rows []any, cuts []int, flush []bool) error
@@ -360,14 +364,37 @@ func batches(n int, cuts []int) [][2]int {
 	return out
 }
 
-func mkRT[T any](name string) *RT {
+func mkRT[T any](name string) *RT { return mkRTWith[T](name, nil, nil) }
+
+// mkRTWith: sc, if not nil, is an explicit schema handed to every entry point
+// (row types with interface-typed fields have no schema of their own); rows is
+// then the hand-built row alphabet.
+func mkRTWith[T any](name string, sc func() *parquet.Schema, rows []any) *RT {
 	rt := &RT{Name: name, Type: reflect.TypeOf((*T)(nil)).Elem()}
-	rt.Rows = rowAlphabet(rt.Type)
-	rt.SchemaOf = func() *parquet.Schema { return parquet.SchemaOf(new(T)) }
+	wopt := func(opts []parquet.WriterOption) []parquet.WriterOption {
+		if sc == nil {
+			return opts
+		}
+		return append([]parquet.WriterOption{sc()}, opts...)
+	}
+	gopt := func(opts []parquet.RowGroupOption) []parquet.RowGroupOption {
+		if sc == nil {
+			return opts
+		}
+		return append([]parquet.RowGroupOption{sc()}, opts...)
+	}
+	if sc == nil {
+		rt.Rows = rowAlphabet(rt.Type)
+		rt.SchemaOf = func() *parquet.Schema { return parquet.SchemaOf(new(T)) }
+	} else {
+		rt.Rows = rows
+		rt.SchemaOf = sc
+		rt.ExplicitSchema = true
+	}
 	rt.New = func() any { return new(T) }
 	rt.Deref = func(p any) any { return *(p.(*T)) }
 	rt.WriteGeneric = func(out io.Writer, opts []parquet.WriterOption, rows []any, cuts []int, flush []bool) error {
-		w := parquet.NewGenericWriter[T](out, opts...)
+		w := parquet.NewGenericWriter[T](out, wopt(opts)...)
 		ts := unbox[T](rows)
 		for bi, b := range batches(len(ts), cuts) {
 			if bi > 0 && bi-1 < len(flush) && flush[bi-1] {
@@ -386,8 +413,8 @@ func mkRT[T any](name string) *RT {
 		return w.Close()
 	}
 	rt.WriteMixed = func(out io.Writer, rows []any, cuts []int, typedFirst bool) error {
-		w := parquet.NewGenericWriter[T](out)
-		schema := parquet.SchemaOf(new(T))
+		w := parquet.NewGenericWriter[T](out, wopt(nil)...)
+		schema := rt.SchemaOf()
 		ts := unbox[T](rows)
 		for bi, b := range batches(len(ts), cuts) {
 			if (bi%2 == 0) == typedFirst {
@@ -407,7 +434,7 @@ func mkRT[T any](name string) *RT {
 		return w.Close()
 	}
 	rt.WriteAny = func(out io.Writer, opts []parquet.WriterOption, rows []any, cuts []int, flush []bool) error {
-		opts = append([]parquet.WriterOption{parquet.SchemaOf(new(T))}, opts...)
+		opts = append([]parquet.WriterOption{rt.SchemaOf()}, opts...)
 		w := parquet.NewWriter(out, opts...)
 		ts := unbox[T](rows)
 		for bi, b := range batches(len(ts), cuts) {
@@ -449,7 +476,7 @@ func mkRT[T any](name string) *RT {
 		return box(all), fmt.Errorf("reader never reached EOF")
 	}
 	rt.GenericBuffer = func(rows []any, cuts []int, opts ...parquet.RowGroupOption) (parquet.RowGroup, sort.Interface, error) {
-		b := parquet.NewGenericBuffer[T](opts...)
+		b := parquet.NewGenericBuffer[T](gopt(opts)...)
 		ts := unbox[T](rows)
 		for _, r := range batches(len(ts), cuts) {
 			if _, err := b.Write(ts[r[0]:r[1]]); err != nil {
@@ -459,7 +486,7 @@ func mkRT[T any](name string) *RT {
 		return b, b, nil
 	}
 	rt.GenericBufferPeek = func(rows []any, cuts []int) (parquet.RowGroup, error) {
-		b := parquet.NewGenericBuffer[T]()
+		b := parquet.NewGenericBuffer[T](gopt(nil)...)
 		ts := unbox[T](rows)
 		bs := batches(len(ts), cuts)
 		for bi, r := range bs {
@@ -500,7 +527,7 @@ func mkRT[T any](name string) *RT {
 		return err
 	}
 	rt.SortingWrite = func(out io.Writer, rows []any, cuts []int, sortRun int64, opts ...parquet.WriterOption) error {
-		w := parquet.NewSortingWriter[T](out, sortRun, opts...)
+		w := parquet.NewSortingWriter[T](out, sortRun, wopt(opts)...)
 		ts := unbox[T](rows)
 		for _, r := range batches(len(ts), cuts) {
 			if _, err := w.Write(ts[r[0]:r[1]]); err != nil {
@@ -510,7 +537,7 @@ func mkRT[T any](name string) *RT {
 		return w.Close()
 	}
 	rt.RowBuffer = func(rows []any, cuts []int, opts ...parquet.RowGroupOption) (parquet.RowGroup, sort.Interface, error) {
-		b := parquet.NewRowBuffer[T](opts...)
+		b := parquet.NewRowBuffer[T](gopt(opts)...)
 		ts := unbox[T](rows)
 		for _, r := range batches(len(ts), cuts) {
 			if _, err := b.Write(ts[r[0]:r[1]]); err != nil {
